@@ -72,16 +72,42 @@ def repo_headers():
     return res
 
 
-def build(name, driver_srcs, repo_srcs, san="asan", defines=(), extra_flags=(), libs=()):
+GLUE_FROM = "// Derive session event from the received frame"
+GLUE_TO = "&tick_port);"
+GLUE_FALLBACK_USED = [False]
+
+
+def extract_glue():
+    """The frame path of the Darwin daemon's lltdLoop, textually: from 'Derive session event' to the
+    post-frame automata_tick.  Falls back to a transcription of the documented flow."""
+    p = os.path.join(REPO, "os/darwin/daemon/darwin-main.c")
+    try:
+        with open(p) as f:
+            lines = f.read().split("\n")
+        a = next(i for i, l in enumerate(lines) if GLUE_FROM in l)
+        b = next(i for i in range(a, len(lines)) if GLUE_TO in lines[i])
+        GLUE_FALLBACK_USED[0] = False
+        return "\n".join(lines[a:b + 1]) + "\n"
+    except (OSError, StopIteration):
+        GLUE_FALLBACK_USED[0] = True
+        with open(os.path.join(HARNESS, "glue_fallback.inc")) as f:
+            return f.read()
+
+
+def build(name, driver_srcs, repo_srcs, san="asan", defines=(), extra_flags=(), libs=(), gen=None):
     """Compile a harness binary from /repo's working tree; cached by content hash."""
     srcs = [os.path.join(HARNESS, s) for s in driver_srcs] + [os.path.join(REPO, s) for s in repo_srcs]
     deps = srcs + repo_headers() + [os.path.join(HARNESS, f) for f in sorted(os.listdir(HARNESS))]
-    key = _hash_files(sorted(set(deps)), (name, san, defines, extra_flags, libs))
+    key = _hash_files(sorted(set(deps)), (name, san, defines, extra_flags, libs, sorted((gen or {}).items())))
     cdir = os.path.join(OUT, "cache", key)
     binp = os.path.join(cdir, name)
     if os.path.exists(binp):
         return binp
     os.makedirs(cdir, exist_ok=True)
+    for fn, text in (gen or {}).items():
+        with open(os.path.join(cdir, fn), "w") as f:
+            f.write(text)
+    extra_flags = list(extra_flags) + ["-I" + cdir]
     cmd = (["clang", "-O1", "-g", "-w"] + SAN[san] + ["-DLLTD_VERIF_HOOKS"] + ["-D" + d for d in defines]
            + list(extra_flags)
            + ["-I" + os.path.join(REPO, "lltdResponder"), "-I" + os.path.join(REPO, "os/esp32/daemon"), "-I" + HARNESS]
@@ -91,6 +117,10 @@ def build(name, driver_srcs, repo_srcs, san="asan", defines=(), extra_flags=(), 
         raise Infra("build of %s failed:\n%s" % (name, se[-4000:]))
     os.replace(binp + ".tmp", binp)
     return binp
+
+
+def build_automata(san="asan"):
+    return build("run_automata", ["run_automata.c", "vport.c"], CORE, san=san, gen={"glue.inc": extract_glue()})
 
 
 def build_responder(san="asan"):
@@ -137,20 +167,23 @@ def tlc_run(workdir, module, cfg, workers=1, env=None, timeout=900, xmx="3g", ex
             "distinct": int(m.group(2)) if m else 0, "wall": time.time() - t0}
 
 
-def write_trace_cfg(path, check, spec="TraceSpec"):
+def write_trace_cfg(path, check, spec="TraceSpec", primary=""):
     with open(path, "w") as f:
-        f.write("SPECIFICATION %s\nCONSTANT Check = {%s}\nCONSTRAINT Progress\nPOSTCONDITION Accepted\nCHECK_DEADLOCK FALSE\n"
-                % (spec, ",".join('"%s"' % c for c in sorted(check))))
+        f.write("SPECIFICATION %s\nCONSTANT Check = {%s}\nCONSTANT Primary = \"%s\"\nCONSTRAINT Progress\nPOSTCONDITION Accepted\nCHECK_DEADLOCK FALSE\n"
+                % (spec, ",".join('"%s"' % c for c in sorted(check)), primary))
 
 
 _ACC = re.compile(r'<<"ACCEPTED", (\d+), "EXERCISED", (\d+)>>')
 _REJ = re.compile(r'<<"REJECTED_AT", (\d+), "LN", (\d+), "EXERCISED", (\d+)>>')
 
 
+PRIMARY = [""]
+
+
 def validate_trace(workdir, trace, check, module="ResponderTrace.tla", tag="t", timeout=1200):
     """Returns dict(accepted, events, exercised, rejected_at, ln, states).  Raises Infra on TLC trouble."""
     cfg = os.path.join(workdir, "%s.cfg" % tag)
-    write_trace_cfg(cfg, check)
+    write_trace_cfg(cfg, check, primary=PRIMARY[0])
     r = tlc_run(workdir, module, cfg, workers=1, env={"TRACE": trace}, timeout=timeout)
     m = _ACC.search(r["out"])
     if m:
@@ -160,7 +193,8 @@ def validate_trace(workdir, trace, check, module="ResponderTrace.tla", tag="t", 
     if m:
         return {"accepted": False, "rejected_at": int(m.group(1)), "ln": int(m.group(2)), "exercised": int(m.group(3)),
                 "states": r["distinct"], "generated": r["generated"], "wall": r["wall"]}
-    raise Infra("TLC gave no verdict on %s (rc=%s):\n%s\n%s" % (trace, r["rc"], r["out"][-3000:], r["err"][-1000:]))
+    errs = "\n".join(re.findall(r"(?:Error:|The exception was|: Attempted)[^\n]*(?:\n[^\n]*){0,3}", r["out"])[:3])
+    raise Infra("TLC gave no verdict on %s (rc=%s):\n%s\n...\n%s\n%s" % (trace, r["rc"], errs, r["out"][-1500:], r["err"][-1000:]))
 
 
 # ------------------------------------------------------------------ harness runs
